@@ -136,8 +136,17 @@ def extract(tmp: str) -> dict[str, list[str]]:
 
 def gen(tmp: str) -> dict[str, str]:
     progs = extract(tmp)
+    q = chr(34)
+
+    def pair(e: str) -> str:
+        k, _, a = e.partition(" ")
+        return f"({q}{k}{q}, {q}{a}{q})"
+
     body = "\n".join(
-        f"def {name} : List String := [{', '.join(chr(34) + e + chr(34) for e in effs)}]" for name, effs in progs.items()
+        f"def {name} : List String := [{', '.join(q + e + q for e in effs)}]\n"
+        f"/-- the same as (effect kind, argument) pairs -/\n"
+        f"def {name}P : List (String × String) := [{', '.join(pair(e) for e in effs)}]"
+        for name, effs in progs.items()
     )
     return {"Programs.lean": f"""-- GENERATED by harness/translate/programs.py: state-changing backend effects of lifecycle operations,
 -- in the order the real code performs them (traced on instrumented in-memory backends). Do not edit.
